@@ -9,7 +9,7 @@ p = [x for x in p if x['id'] == pid][0]
 import glob
 round2 = '--round2' in sys.argv or '--round3' in sys.argv or '--round4' in sys.argv
 avoid = ''
-suffix = ''
+suffix = 'g' if '--round7' in sys.argv else ''
 if round2:
     suffix = 'd' if '--round4' in sys.argv else ('c' if '--round3' in sys.argv else 'b')
     prev = []
